@@ -123,8 +123,16 @@ func (fs *FS) mountPoint(path string) (_ hackpadfs.FS, mountPoint, subPath strin
 
 // Open implements hackpadfs.FS
 func (fs *FS) Open(name string) (hackpadfs.File, error) {
-	mountFS, subPath := fs.Mount(name)
-	return mountFS.Open(subPath)
+	mountFS, mountPath, subPath := fs.mountPoint(name)
+	if mountPath == "." {
+		return mountFS.Open(name)
+	}
+	file, err := mountFS.Open(subPath)
+	if pathErr, ok := err.(*hackpadfs.PathError); ok && pathErr.Path == subPath {
+		// name the caller's path, not the path inside the mounted file system
+		err = &hackpadfs.PathError{Op: pathErr.Op, Path: name, Err: pathErr.Err}
+	}
+	return file, err
 }
 
 // Point represents a mount point, including any relevant metadata
@@ -145,6 +153,22 @@ func (fs *FS) MountPoints() []Point {
 
 // Rename implements hackpadfs.RenameFS
 func (fs *FS) Rename(oldname, newname string) error {
+	err := fs.rename(oldname, newname)
+	if err == nil {
+		return nil
+	}
+	// name the caller's paths, not the paths inside the mounted file systems
+	switch e := err.(type) {
+	case *hackpadfs.LinkError:
+		return &hackpadfs.LinkError{Op: e.Op, Old: oldname, New: newname, Err: e.Err}
+	case *hackpadfs.PathError:
+		return &hackpadfs.LinkError{Op: "rename", Old: oldname, New: newname, Err: e.Err}
+	default:
+		return &hackpadfs.LinkError{Op: "rename", Old: oldname, New: newname, Err: err}
+	}
+}
+
+func (fs *FS) rename(oldname, newname string) error {
 	oldMount, oldPoint, oldSubPath := fs.mountPoint(oldname)
 	newMount, newPoint, newSubPath := fs.mountPoint(newname)
 	oldInfo, err := hackpadfs.Stat(oldMount, oldSubPath)
